@@ -122,6 +122,11 @@ func ParamCases(seed int64, n int) []Case {
 		"responses":   M{"204": M{"description": "ok"}, "default": M{"description": "e"}},
 	})
 	rb.Op("/text", "put", M{"requestBody": M{"content": M{"text/plain": M{"schema": Prim("string", "")}}}})
+	// a structured-syntax media type that is not application/json: a raw body on both sides
+	rb.Op("/patch/{id}", "patch", M{
+		"parameters":  L{ParamNode("id", "path", true, Prim("integer", "int64"))},
+		"requestBody": M{"required": true, "content": M{"application/merge-patch+json": M{"schema": M{"type": "object"}}}},
+	})
 	rb.Comp("requestBodies", "Blob", M{"content": M{"application/octet-stream": M{"schema": bin}}})
 	rb.Op("/blob", "patch", M{"requestBody": Ref("requestBodies", "Blob"), "parameters": L{ParamNode("tags", "query", false, Arr(Prim("string", "")))}})
 	out = append(out, Case{ID: "params-raw-body", Family: "params", Spec: rb.Root, Flags: Flags{Client: true}, Safe: true, Label: map[string]string{"set": "raw-body"}})
